@@ -163,16 +163,37 @@ DESCR4 = {
     "C20": ("router.py process_common_header: the BEACON branch returns before the RHL > MHL check", "a beacon with RHL above its MHL makes its sender a neighbour"),
 }
 
+DESCR5 = {
+    "C02": ("router.py gn_data_indicate_ls_request: the LS reply's DE PV copied from the request's SO PV instead of the requester's location-table entry",
+            "a beacon (or any packet) of the requester with a newer timestamp is processed before a delayed LS request carrying an older SO PV: the reply's DE PV is the stale one (EN 302 636-4-1 10.3.7.3)"),
+    "C03": ("certificate.py __verify_issued_certificate: successful issuer-signature checks memoised under (issuer HashedId8, r, s) without the toBeSigned content",
+            "a genuine authorization ticket verified first; then a forged ticket re-using its issuer digest and signature bytes with the attacker's own verification key: accepted, stored, later digest-signed forgeries delivered"),
+    "C06": ("router.py gn_data_indicate_ls_reply (forwarder): DE PV refresh test on raw .msec (the LS-reply half of the round-4 change)",
+            "forwarded LS reply whose destination is a neighbour, location-table and packet timestamps on opposite sides of the 2^32 ms wrap"),
+    "C08": ("location_table.py refresh_table: an expired entry with a pending LS lookup is emptied in place instead of replaced; is_neighbour not reset",
+            "LS lookup for S pending, beacon/SHB of S processed meanwhile, lifetime passes before the lookup ends, table refreshed: S stays a neighbour with an all-zero PV through any later multi-hop packet"),
+    "C11": ("vru_clustering.py _leader_operation_container: lower clamp of breakupTime dropped (max(1, ...) removed)",
+            "cluster leader that triggered a break-up generates a VAM in the last 250 ms of the 3 s warning: breakupTime 0 is outside DeltaTimeQuarterSecond (1..255), encoding fails, no VAM"),
+    "C13": ("dictionary_database.py _statement_holds: TypeError no longer caught per statement (search() answers () for the whole request)",
+            "Dictionary back-end only, OR filter with an ordering operator against a non-orderable reference (string / None) and a second statement that matches: empty result, TinyDB returns the matches"),
+    "C19": ("dcc_adaptive.py GateKeeper: update_delta rescales the interval cached at admission instead of the current t_go - t_pg",
+            ">= 2 delta updates with different values inside one closed-gate period: the gate opens at a time equation B.2 does not give (duty cycle up to doubled)"),
+}
+
 
 def main():
     res = {}
     for f in sorted(glob.glob(os.path.join(HERE, ".work", "seeded*_eval_*.log"))):
         for line in open(f):
-            m = re.match(r"RESULT (C\d\d[234]?) demo_without=(\d+) demo_with=(\d+) suite=\[(.*?)\] check_exit=(\d+) ?(.*)", line)
+            m = re.match(r"RESULT (C\d\d[2345]?) demo_without=(\d+) demo_with=(\d+) suite=\[(.*?)\] check_exit=(\d+) ?(.*)", line)
             if m:
                 res[m.group(1)] = m.groups()
-    items = [(pid, "", v) for pid, v in sorted(DESCR.items())] + [(pid, "2", v) for pid, v in sorted(DESCR2.items())] + [(pid, "3", v) for pid, v in sorted(DESCR3.items())] + [(pid, "4", v) for pid, v in sorted(DESCR4.items())]
+    items = [(pid, "", v) for pid, v in sorted(DESCR.items())] + [(pid, "2", v) for pid, v in sorted(DESCR2.items())] + [(pid, "3", v) for pid, v in sorted(DESCR3.items())] + [(pid, "4", v) for pid, v in sorted(DESCR4.items())] + [(pid, "5", v) for pid, v in sorted(DESCR5.items())]
+    import sys
+    only = sys.argv[1:]
     for pid, suf, (change, needs) in items:
+        if only and suf not in only:
+            continue
         d = os.path.join(HERE, "seeded", pid)
         if not os.path.isdir(d):
             continue
@@ -183,7 +204,7 @@ def main():
             "needs": needs,
             "round": int(suf) if suf else 1, "files": {"patch": "patch%s.diff" % suf, "demo": "demo%s.py" % suf, "notes": "NOTES%s.md" % suf},
             "origin": "fresh sub-agent given only the property text%s and a scratch git worktree (/tmp/seed%s-%s); NOTES%s.md is its own report" % (
-                " (plus one line naming each earlier change, to be avoided)" if suf else "", suf, pid, suf),
+                " (plus one line naming each earlier change, to be avoided)" if suf in ("2", "3", "4") else "", suf, pid, suf),
             "confirmed_in_scratch_worktree": None if r is None else {
                 "demo_exit_without_change": int(r[1]), "demo_exit_with_change": int(r[2]), "unit_suite_with_change": re.sub(r", \d+ warnings.*", "", r[3]),
                 "commands": ["git -C /repo worktree add /tmp/sv-%s HEAD" % pid, "PYTHONPATH=/tmp/sv-%s/src /venv/bin/python demo.py  (before / after git apply patch.diff)" % pid,
